@@ -274,6 +274,7 @@ package stree
 //@ pred treeRO(n *node[T], cmp func(T, T) int) := n != nil ==> allocated(n) && n in n.desc
 //@+     && (forall y *node[T] :: {y in n.desc} y in n.desc ==> y != nil && allocated(y) && local(y, cmp) && closedRO(y))
 //@ pred treeInvRO(t *Tree[T]) := t != nil && treeRO(t.root, t.compare) && (forall k int :: {k in t.elems} k in t.elems <==> inK(t.root, k))
+//@+     && (forall k int :: {t.vals[k]} k in t.elems ==> t.vals[k] == t.root.rep[k])
 //@ pred ordPath(p []*node[T], cmp func(T, T) int) := len(p) > 0 ==> treeRO(p[0], cmp)
 //@+     && (forall j int :: {p[j]} 0 <= j && j < len(p) ==> p[j] in p[0].desc)
 //@+     && (forall j int, k int, m int :: {p[j], k in p[0].keys, m in p[j].keys} 0 <= j && j < len(p) && k in p[0].keys && !(k in p[j].keys) && m in p[j].keys ==> ((k < m) <==> (k < rank(cmp, p[j].X))))
@@ -284,9 +285,9 @@ package stree
 //@   ensures result == (c != nil && len(c.path) != 0)
 //@
 //@ func (*Cursor).Key
-//@   requires [C03] c != nil ==> pathOK(c)
-//@   ensures  [C03] valid: c != nil && len(c.path) != 0 ==> result == cur(c).X
-//@   ensures  [C03] invalid: c == nil || len(c.path) == 0 ==> result == zero
+//@   requires [C03,C04] c != nil ==> pathOK(c)
+//@   ensures  [C03,C04] valid: c != nil && len(c.path) != 0 ==> result == cur(c).X
+//@   ensures  [C03,C04] invalid: c == nil || len(c.path) == 0 ==> result == zero
 //@
 //@ func (*Cursor).HasLeft
 //@   requires [C03] c != nil ==> pathOK(c)
@@ -329,37 +330,37 @@ package stree
 //@
 //@ func (*Cursor).Min
 //@   ghost cmp func(T, T) int
-//@   requires [C03] c != nil ==> pathOK(c) && ordPath(c.path, cmp)
-//@   ensures  [C03] same: result == c && (c != nil ==> pathOK(c) && ordPath(c.path, cmp))
-//@   ensures  [C03] least: c != nil && old(len(c.path)) != 0 ==> rank(cmp, cur(c).X) in old(cur(c)).keys && forall k int :: {k in old(cur(c)).keys} k in old(cur(c)).keys ==> k >= rank(cmp, cur(c).X)
-//@   ensures  [C03] bottom: c != nil && old(len(c.path)) != 0 ==> len(c.path) >= old(len(c.path)) && cur(c).left == nil
-//@   ensures  [C03] leftward: c != nil ==> forall a int, b int :: {c.path[a], c.path[b]} old(len(c.path)) <= b && b == a + 1 && b < len(c.path) ==> c.path[b] == c.path[a].left
-//@   ensures  [C03] prefix: c != nil ==> samePrefix(c, old(len(c.path)))
-//@   ensures  [C03] invalid: c != nil && old(len(c.path)) == 0 ==> len(c.path) == 0
+//@   requires [C03,C04] c != nil ==> pathOK(c) && ordPath(c.path, cmp)
+//@   ensures  [C03,C04] same: result == c && (c != nil ==> pathOK(c) && ordPath(c.path, cmp))
+//@   ensures  [C03,C04] least: c != nil && old(len(c.path)) != 0 ==> rank(cmp, cur(c).X) in old(cur(c)).keys && forall k int :: {k in old(cur(c)).keys} k in old(cur(c)).keys ==> k >= rank(cmp, cur(c).X)
+//@   ensures  [C03,C04] bottom: c != nil && old(len(c.path)) != 0 ==> len(c.path) >= old(len(c.path)) && cur(c).left == nil
+//@   ensures  [C03,C04] leftward: c != nil ==> forall a int, b int :: {c.path[a], c.path[b]} old(len(c.path)) <= b && b == a + 1 && b < len(c.path) ==> c.path[b] == c.path[a].left
+//@   ensures  [C03,C04] prefix: c != nil ==> samePrefix(c, old(len(c.path)))
+//@   ensures  [C03,C04] invalid: c != nil && old(len(c.path)) == 0 ==> len(c.path) == 0
 //@   modifies c.path, backing(c.path)
-//@   loop 1: invariant [C03] shape: c != nil && len(c.path) >= old(len(c.path)) && len(c.path) > 0 && min == cur(c) && pathOK(c) && other_arrays_unchanged(c.path) && (c.path.base == old(c.path.base) || fresh(c.path))
-//@   loop 1: invariant [C03] prefix: samePrefix(c, old(len(c.path)))
-//@   loop 1: invariant [C03] leftward: forall a int, b int :: {c.path[a], c.path[b]} old(len(c.path)) <= b && b == a + 1 && b < len(c.path) ==> c.path[b] == c.path[a].left
-//@   loop 1: invariant [C03] ord: ordPath(c.path, cmp)
-//@   at after "min = min.left": assert [C03] min in c.path[0].desc
-//@   loop 1: invariant [C03] least: min in old(cur(c)).desc && rank(cmp, min.X) in old(cur(c)).keys && forall k int :: {k in old(cur(c)).keys} k in old(cur(c)).keys ==> k in min.keys || k > rank(cmp, min.X)
+//@   loop 1: invariant [C03,C04] shape: c != nil && len(c.path) >= old(len(c.path)) && len(c.path) > 0 && min == cur(c) && pathOK(c) && other_arrays_unchanged(c.path) && (c.path.base == old(c.path.base) || fresh(c.path))
+//@   loop 1: invariant [C03,C04] prefix: samePrefix(c, old(len(c.path)))
+//@   loop 1: invariant [C03,C04] leftward: forall a int, b int :: {c.path[a], c.path[b]} old(len(c.path)) <= b && b == a + 1 && b < len(c.path) ==> c.path[b] == c.path[a].left
+//@   loop 1: invariant [C03,C04] ord: ordPath(c.path, cmp)
+//@   at after "min = min.left": assert [C03,C04] min in c.path[0].desc
+//@   loop 1: invariant [C03,C04] least: min in old(cur(c)).desc && rank(cmp, min.X) in old(cur(c)).keys && forall k int :: {k in old(cur(c)).keys} k in old(cur(c)).keys ==> k in min.keys || k > rank(cmp, min.X)
 //@
 //@ func (*Cursor).Max
 //@   ghost cmp func(T, T) int
-//@   requires [C03] c != nil ==> pathOK(c) && ordPath(c.path, cmp)
-//@   ensures  [C03] same: result == c && (c != nil ==> pathOK(c) && ordPath(c.path, cmp))
-//@   ensures  [C03] greatest: c != nil && old(len(c.path)) != 0 ==> rank(cmp, cur(c).X) in old(cur(c)).keys && forall k int :: {k in old(cur(c)).keys} k in old(cur(c)).keys ==> k <= rank(cmp, cur(c).X)
-//@   ensures  [C03] bottom: c != nil && old(len(c.path)) != 0 ==> len(c.path) >= old(len(c.path)) && cur(c).right == nil
-//@   ensures  [C03] rightward: c != nil ==> forall a int, b int :: {c.path[a], c.path[b]} old(len(c.path)) <= b && b == a + 1 && b < len(c.path) ==> c.path[b] == c.path[a].right
-//@   ensures  [C03] prefix: c != nil ==> samePrefix(c, old(len(c.path)))
-//@   ensures  [C03] invalid: c != nil && old(len(c.path)) == 0 ==> len(c.path) == 0
+//@   requires [C03,C04] c != nil ==> pathOK(c) && ordPath(c.path, cmp)
+//@   ensures  [C03,C04] same: result == c && (c != nil ==> pathOK(c) && ordPath(c.path, cmp))
+//@   ensures  [C03,C04] greatest: c != nil && old(len(c.path)) != 0 ==> rank(cmp, cur(c).X) in old(cur(c)).keys && forall k int :: {k in old(cur(c)).keys} k in old(cur(c)).keys ==> k <= rank(cmp, cur(c).X)
+//@   ensures  [C03,C04] bottom: c != nil && old(len(c.path)) != 0 ==> len(c.path) >= old(len(c.path)) && cur(c).right == nil
+//@   ensures  [C03,C04] rightward: c != nil ==> forall a int, b int :: {c.path[a], c.path[b]} old(len(c.path)) <= b && b == a + 1 && b < len(c.path) ==> c.path[b] == c.path[a].right
+//@   ensures  [C03,C04] prefix: c != nil ==> samePrefix(c, old(len(c.path)))
+//@   ensures  [C03,C04] invalid: c != nil && old(len(c.path)) == 0 ==> len(c.path) == 0
 //@   modifies c.path, backing(c.path)
-//@   loop 1: invariant [C03] shape: c != nil && len(c.path) >= old(len(c.path)) && len(c.path) > 0 && max == cur(c) && pathOK(c) && other_arrays_unchanged(c.path) && (c.path.base == old(c.path.base) || fresh(c.path))
-//@   loop 1: invariant [C03] prefix: samePrefix(c, old(len(c.path)))
-//@   loop 1: invariant [C03] rightward: forall a int, b int :: {c.path[a], c.path[b]} old(len(c.path)) <= b && b == a + 1 && b < len(c.path) ==> c.path[b] == c.path[a].right
-//@   loop 1: invariant [C03] ord: ordPath(c.path, cmp)
-//@   at after "max = max.right": assert [C03] max in c.path[0].desc
-//@   loop 1: invariant [C03] greatest: max in old(cur(c)).desc && rank(cmp, max.X) in old(cur(c)).keys && forall k int :: {k in old(cur(c)).keys} k in old(cur(c)).keys ==> k in max.keys || k < rank(cmp, max.X)
+//@   loop 1: invariant [C03,C04] shape: c != nil && len(c.path) >= old(len(c.path)) && len(c.path) > 0 && max == cur(c) && pathOK(c) && other_arrays_unchanged(c.path) && (c.path.base == old(c.path.base) || fresh(c.path))
+//@   loop 1: invariant [C03,C04] prefix: samePrefix(c, old(len(c.path)))
+//@   loop 1: invariant [C03,C04] rightward: forall a int, b int :: {c.path[a], c.path[b]} old(len(c.path)) <= b && b == a + 1 && b < len(c.path) ==> c.path[b] == c.path[a].right
+//@   loop 1: invariant [C03,C04] ord: ordPath(c.path, cmp)
+//@   at after "max = max.right": assert [C03,C04] max in c.path[0].desc
+//@   loop 1: invariant [C03,C04] greatest: max in old(cur(c)).desc && rank(cmp, max.X) in old(cur(c)).keys && forall k int :: {k in old(cur(c)).keys} k in old(cur(c)).keys ==> k in max.keys || k < rank(cmp, max.X)
 //@
 //@ func (*Cursor).findNext
 //@   ghost cmp func(T, T) int
@@ -417,49 +418,49 @@ package stree
 //@
 //@ func (*Cursor).Next
 //@   ghost cmp func(T, T) int
-//@   requires [C03] c != nil ==> pathOK(c) && ordPath(c.path, cmp)
-//@   ensures  [C03] same: result == c && (c != nil ==> pathOK(c) && ordPath(c.path, cmp))
-//@   ensures  [C03] succ: c != nil && old(len(c.path)) != 0 && len(c.path) != 0 ==> rank(cmp, cur(c).X) > old(rank(cmp, cur(c).X)) && c.path[0] == old(c.path[0]) && forall k int :: {k in c.path[0].keys} k in c.path[0].keys ==> k <= old(rank(cmp, cur(c).X)) || k >= rank(cmp, cur(c).X)
-//@   ensures  [C03] last: c != nil && old(len(c.path)) != 0 && len(c.path) == 0 ==> forall k int :: {k in old(c.path[0]).keys} k in old(c.path[0]).keys ==> k <= old(rank(cmp, cur(c).X))
+//@   requires [C03,C04] c != nil ==> pathOK(c) && ordPath(c.path, cmp)
+//@   ensures  [C03,C04] same: result == c && (c != nil ==> pathOK(c) && ordPath(c.path, cmp))
+//@   ensures  [C03,C04] succ: c != nil && old(len(c.path)) != 0 && len(c.path) != 0 ==> rank(cmp, cur(c).X) > old(rank(cmp, cur(c).X)) && c.path[0] == old(c.path[0]) && forall k int :: {k in c.path[0].keys} k in c.path[0].keys ==> k <= old(rank(cmp, cur(c).X)) || k >= rank(cmp, cur(c).X)
+//@   ensures  [C03,C04] last: c != nil && old(len(c.path)) != 0 && len(c.path) == 0 ==> forall k int :: {k in old(c.path[0]).keys} k in old(c.path[0]).keys ==> k <= old(rank(cmp, cur(c).X))
 //@   call findNext#1: cmp = cmp
-//@   loop 1: invariant [C03] ord: ordPath(c.path, cmp)
-//@   loop 1: invariant [C03] least: len(c.path) > old(len(c.path)) ==> cur(c) in old(cur(c).right).desc && rank(cmp, cur(c).X) in old(cur(c).right).keys && forall k int :: {k in old(cur(c).right).keys} k in old(cur(c).right).keys ==> k in cur(c).keys || k > rank(cmp, cur(c).X)
-//@   ensures  [C03] invalid: c != nil && old(len(c.path)) == 0 ==> len(c.path) == 0
-//@   ensures  [C03] down: c != nil && old(len(c.path)) != 0 && old(cur(c).right) != nil ==> len(c.path) > old(len(c.path)) && samePrefix(c, old(len(c.path))) && cur(c).left == nil
-//@   ensures  [C03] downFirst: c != nil && old(len(c.path)) != 0 && old(cur(c).right) != nil ==> forall a int, b int :: {c.path[a], c.path[b]} b == old(len(c.path)) && b == a + 1 ==> c.path[b] == c.path[a].right
-//@   ensures  [C03] downRest: c != nil && old(len(c.path)) != 0 && old(cur(c).right) != nil ==> forall a int, b int :: {c.path[a], c.path[b]} old(len(c.path)) < b && b == a + 1 && b < len(c.path) ==> c.path[b] == c.path[a].left
-//@   ensures  [C03] up: c != nil && old(len(c.path)) != 0 && old(cur(c).right) == nil ==> len(c.path) < old(len(c.path)) && samePrefix(c, len(c.path))
-//@   ensures  [C03] upTurn: c != nil && old(len(c.path)) != 0 && old(cur(c).right) == nil && len(c.path) > 0 ==> forall a int, b int :: {old(c.path[a]), old(c.path[b])} b == len(c.path) && b == a + 1 ==> old(c.path[b]) == old(c.path[a].left)
-//@   ensures  [C03] upSkipped: c != nil && old(len(c.path)) != 0 && old(cur(c).right) == nil ==> forall a int, b int :: {old(c.path[a]), old(c.path[b])} len(c.path) <= a && b == a + 1 && b < old(len(c.path)) ==> old(c.path[b]) != old(c.path[a].left)
+//@   loop 1: invariant [C03,C04] ord: ordPath(c.path, cmp)
+//@   loop 1: invariant [C03,C04] least: len(c.path) > old(len(c.path)) ==> cur(c) in old(cur(c).right).desc && rank(cmp, cur(c).X) in old(cur(c).right).keys && forall k int :: {k in old(cur(c).right).keys} k in old(cur(c).right).keys ==> k in cur(c).keys || k > rank(cmp, cur(c).X)
+//@   ensures  [C03,C04] invalid: c != nil && old(len(c.path)) == 0 ==> len(c.path) == 0
+//@   ensures  [C03,C04] down: c != nil && old(len(c.path)) != 0 && old(cur(c).right) != nil ==> len(c.path) > old(len(c.path)) && samePrefix(c, old(len(c.path))) && cur(c).left == nil
+//@   ensures  [C03,C04] downFirst: c != nil && old(len(c.path)) != 0 && old(cur(c).right) != nil ==> forall a int, b int :: {c.path[a], c.path[b]} b == old(len(c.path)) && b == a + 1 ==> c.path[b] == c.path[a].right
+//@   ensures  [C03,C04] downRest: c != nil && old(len(c.path)) != 0 && old(cur(c).right) != nil ==> forall a int, b int :: {c.path[a], c.path[b]} old(len(c.path)) < b && b == a + 1 && b < len(c.path) ==> c.path[b] == c.path[a].left
+//@   ensures  [C03,C04] up: c != nil && old(len(c.path)) != 0 && old(cur(c).right) == nil ==> len(c.path) < old(len(c.path)) && samePrefix(c, len(c.path))
+//@   ensures  [C03,C04] upTurn: c != nil && old(len(c.path)) != 0 && old(cur(c).right) == nil && len(c.path) > 0 ==> forall a int, b int :: {old(c.path[a]), old(c.path[b])} b == len(c.path) && b == a + 1 ==> old(c.path[b]) == old(c.path[a].left)
+//@   ensures  [C03,C04] upSkipped: c != nil && old(len(c.path)) != 0 && old(cur(c).right) == nil ==> forall a int, b int :: {old(c.path[a]), old(c.path[b])} len(c.path) <= a && b == a + 1 && b < old(len(c.path)) ==> old(c.path[b]) != old(c.path[a].left)
 //@   modifies c.path, backing(c.path)
-//@   loop 1: invariant [C03] shape: c != nil && old(len(c.path)) != 0 && len(c.path) >= old(len(c.path)) && pathOK(c) && other_arrays_unchanged(c.path) && (c.path.base == old(c.path.base) || fresh(c.path))
-//@   loop 1: invariant [C03] prefix: samePrefix(c, old(len(c.path)))
-//@   loop 1: invariant [C03] cursor: (len(c.path) == old(len(c.path)) ==> min != nil && min == cur(c).right) && (len(c.path) > old(len(c.path)) ==> min == cur(c).left)
-//@   loop 1: invariant [C03] first: len(c.path) > old(len(c.path)) ==> forall a int, b int :: {c.path[a], c.path[b]} b == old(len(c.path)) && b == a + 1 ==> c.path[b] == c.path[a].right
-//@   loop 1: invariant [C03] rest: forall a int, b int :: {c.path[a], c.path[b]} old(len(c.path)) < b && b == a + 1 && b < len(c.path) ==> c.path[b] == c.path[a].left
+//@   loop 1: invariant [C03,C04] shape: c != nil && old(len(c.path)) != 0 && len(c.path) >= old(len(c.path)) && pathOK(c) && other_arrays_unchanged(c.path) && (c.path.base == old(c.path.base) || fresh(c.path))
+//@   loop 1: invariant [C03,C04] prefix: samePrefix(c, old(len(c.path)))
+//@   loop 1: invariant [C03,C04] cursor: (len(c.path) == old(len(c.path)) ==> min != nil && min == cur(c).right) && (len(c.path) > old(len(c.path)) ==> min == cur(c).left)
+//@   loop 1: invariant [C03,C04] first: len(c.path) > old(len(c.path)) ==> forall a int, b int :: {c.path[a], c.path[b]} b == old(len(c.path)) && b == a + 1 ==> c.path[b] == c.path[a].right
+//@   loop 1: invariant [C03,C04] rest: forall a int, b int :: {c.path[a], c.path[b]} old(len(c.path)) < b && b == a + 1 && b < len(c.path) ==> c.path[b] == c.path[a].left
 //@
 //@ func (*Cursor).Prev
 //@   ghost cmp func(T, T) int
-//@   requires [C03] c != nil ==> pathOK(c) && ordPath(c.path, cmp)
-//@   ensures  [C03] same: result == c && (c != nil ==> pathOK(c) && ordPath(c.path, cmp))
-//@   ensures  [C03] pred: c != nil && old(len(c.path)) != 0 && len(c.path) != 0 ==> rank(cmp, cur(c).X) < old(rank(cmp, cur(c).X)) && c.path[0] == old(c.path[0]) && forall k int :: {k in c.path[0].keys} k in c.path[0].keys ==> k >= old(rank(cmp, cur(c).X)) || k <= rank(cmp, cur(c).X)
-//@   ensures  [C03] first: c != nil && old(len(c.path)) != 0 && len(c.path) == 0 ==> forall k int :: {k in old(c.path[0]).keys} k in old(c.path[0]).keys ==> k >= old(rank(cmp, cur(c).X))
+//@   requires [C03,C04] c != nil ==> pathOK(c) && ordPath(c.path, cmp)
+//@   ensures  [C03,C04] same: result == c && (c != nil ==> pathOK(c) && ordPath(c.path, cmp))
+//@   ensures  [C03,C04] pred: c != nil && old(len(c.path)) != 0 && len(c.path) != 0 ==> rank(cmp, cur(c).X) < old(rank(cmp, cur(c).X)) && c.path[0] == old(c.path[0]) && forall k int :: {k in c.path[0].keys} k in c.path[0].keys ==> k >= old(rank(cmp, cur(c).X)) || k <= rank(cmp, cur(c).X)
+//@   ensures  [C03,C04] first: c != nil && old(len(c.path)) != 0 && len(c.path) == 0 ==> forall k int :: {k in old(c.path[0]).keys} k in old(c.path[0]).keys ==> k >= old(rank(cmp, cur(c).X))
 //@   call findPrev#1: cmp = cmp
-//@   loop 1: invariant [C03] ord: ordPath(c.path, cmp)
-//@   loop 1: invariant [C03] greatest: len(c.path) > old(len(c.path)) ==> cur(c) in old(cur(c).left).desc && rank(cmp, cur(c).X) in old(cur(c).left).keys && forall k int :: {k in old(cur(c).left).keys} k in old(cur(c).left).keys ==> k in cur(c).keys || k < rank(cmp, cur(c).X)
-//@   ensures  [C03] invalid: c != nil && old(len(c.path)) == 0 ==> len(c.path) == 0
-//@   ensures  [C03] down: c != nil && old(len(c.path)) != 0 && old(cur(c).left) != nil ==> len(c.path) > old(len(c.path)) && samePrefix(c, old(len(c.path))) && cur(c).right == nil
-//@   ensures  [C03] downFirst: c != nil && old(len(c.path)) != 0 && old(cur(c).left) != nil ==> forall a int, b int :: {c.path[a], c.path[b]} b == old(len(c.path)) && b == a + 1 ==> c.path[b] == c.path[a].left
-//@   ensures  [C03] downRest: c != nil && old(len(c.path)) != 0 && old(cur(c).left) != nil ==> forall a int, b int :: {c.path[a], c.path[b]} old(len(c.path)) < b && b == a + 1 && b < len(c.path) ==> c.path[b] == c.path[a].right
-//@   ensures  [C03] up: c != nil && old(len(c.path)) != 0 && old(cur(c).left) == nil ==> len(c.path) < old(len(c.path)) && samePrefix(c, len(c.path))
-//@   ensures  [C03] upTurn: c != nil && old(len(c.path)) != 0 && old(cur(c).left) == nil && len(c.path) > 0 ==> forall a int, b int :: {old(c.path[a]), old(c.path[b])} b == len(c.path) && b == a + 1 ==> old(c.path[b]) == old(c.path[a].right)
-//@   ensures  [C03] upSkipped: c != nil && old(len(c.path)) != 0 && old(cur(c).left) == nil ==> forall a int, b int :: {old(c.path[a]), old(c.path[b])} len(c.path) <= a && b == a + 1 && b < old(len(c.path)) ==> old(c.path[b]) != old(c.path[a].right)
+//@   loop 1: invariant [C03,C04] ord: ordPath(c.path, cmp)
+//@   loop 1: invariant [C03,C04] greatest: len(c.path) > old(len(c.path)) ==> cur(c) in old(cur(c).left).desc && rank(cmp, cur(c).X) in old(cur(c).left).keys && forall k int :: {k in old(cur(c).left).keys} k in old(cur(c).left).keys ==> k in cur(c).keys || k < rank(cmp, cur(c).X)
+//@   ensures  [C03,C04] invalid: c != nil && old(len(c.path)) == 0 ==> len(c.path) == 0
+//@   ensures  [C03,C04] down: c != nil && old(len(c.path)) != 0 && old(cur(c).left) != nil ==> len(c.path) > old(len(c.path)) && samePrefix(c, old(len(c.path))) && cur(c).right == nil
+//@   ensures  [C03,C04] downFirst: c != nil && old(len(c.path)) != 0 && old(cur(c).left) != nil ==> forall a int, b int :: {c.path[a], c.path[b]} b == old(len(c.path)) && b == a + 1 ==> c.path[b] == c.path[a].left
+//@   ensures  [C03,C04] downRest: c != nil && old(len(c.path)) != 0 && old(cur(c).left) != nil ==> forall a int, b int :: {c.path[a], c.path[b]} old(len(c.path)) < b && b == a + 1 && b < len(c.path) ==> c.path[b] == c.path[a].right
+//@   ensures  [C03,C04] up: c != nil && old(len(c.path)) != 0 && old(cur(c).left) == nil ==> len(c.path) < old(len(c.path)) && samePrefix(c, len(c.path))
+//@   ensures  [C03,C04] upTurn: c != nil && old(len(c.path)) != 0 && old(cur(c).left) == nil && len(c.path) > 0 ==> forall a int, b int :: {old(c.path[a]), old(c.path[b])} b == len(c.path) && b == a + 1 ==> old(c.path[b]) == old(c.path[a].right)
+//@   ensures  [C03,C04] upSkipped: c != nil && old(len(c.path)) != 0 && old(cur(c).left) == nil ==> forall a int, b int :: {old(c.path[a]), old(c.path[b])} len(c.path) <= a && b == a + 1 && b < old(len(c.path)) ==> old(c.path[b]) != old(c.path[a].right)
 //@   modifies c.path, backing(c.path)
-//@   loop 1: invariant [C03] shape: c != nil && old(len(c.path)) != 0 && len(c.path) >= old(len(c.path)) && pathOK(c) && other_arrays_unchanged(c.path) && (c.path.base == old(c.path.base) || fresh(c.path))
-//@   loop 1: invariant [C03] prefix: samePrefix(c, old(len(c.path)))
-//@   loop 1: invariant [C03] cursor: (len(c.path) == old(len(c.path)) ==> max != nil && max == cur(c).left) && (len(c.path) > old(len(c.path)) ==> max == cur(c).right)
-//@   loop 1: invariant [C03] first: len(c.path) > old(len(c.path)) ==> forall a int, b int :: {c.path[a], c.path[b]} b == old(len(c.path)) && b == a + 1 ==> c.path[b] == c.path[a].left
-//@   loop 1: invariant [C03] rest: forall a int, b int :: {c.path[a], c.path[b]} old(len(c.path)) < b && b == a + 1 && b < len(c.path) ==> c.path[b] == c.path[a].right
+//@   loop 1: invariant [C03,C04] shape: c != nil && old(len(c.path)) != 0 && len(c.path) >= old(len(c.path)) && pathOK(c) && other_arrays_unchanged(c.path) && (c.path.base == old(c.path.base) || fresh(c.path))
+//@   loop 1: invariant [C03,C04] prefix: samePrefix(c, old(len(c.path)))
+//@   loop 1: invariant [C03,C04] cursor: (len(c.path) == old(len(c.path)) ==> max != nil && max == cur(c).left) && (len(c.path) > old(len(c.path)) ==> max == cur(c).right)
+//@   loop 1: invariant [C03,C04] first: len(c.path) > old(len(c.path)) ==> forall a int, b int :: {c.path[a], c.path[b]} b == old(len(c.path)) && b == a + 1 ==> c.path[b] == c.path[a].left
+//@   loop 1: invariant [C03,C04] rest: forall a int, b int :: {c.path[a], c.path[b]} old(len(c.path)) < b && b == a + 1 && b < len(c.path) ==> c.path[b] == c.path[a].right
 //@
 //@ func (*Cursor).Clone
 //@   ghost cmp func(T, T) int
@@ -484,17 +485,17 @@ package stree
 //@   loop 1: invariant [C03] steered: forall a int, b int :: {path[a], path[b]} 0 <= a && b == a + 1 && b < len(path) ==> (ord(compare, key, path[a].X) < 0 && path[b] == path[a].left) || (ord(compare, key, path[a].X) > 0 && path[b] == path[a].right)
 //@
 //@ func (*Tree).Cursor
-//@   ensures [C03] absent: result == nil || (fresh(result) && len(result.path) > 0 && pathOK(result) && result.path[0] == t.root && ord(t.compare, cur(result).X, key) == 0)
-//@   ensures [C03] steered: result != nil ==> forall a int, b int :: {result.path[a], result.path[b]} 0 <= a && b == a + 1 && b < len(result.path) ==> (ord(t.compare, key, result.path[a].X) < 0 && result.path[b] == result.path[a].left) || (ord(t.compare, key, result.path[a].X) > 0 && result.path[b] == result.path[a].right)
-//@   requires [C03] treeInvRO(t)
-//@   ensures [C03] ord: result != nil ==> ordPath(result.path, t.compare)
-//@   ensures [C03] present: result != nil <==> rank(t.compare, key) in t.elems
+//@   ensures [C03,C04] absent: result == nil || (fresh(result) && len(result.path) > 0 && pathOK(result) && result.path[0] == t.root && ord(t.compare, cur(result).X, key) == 0)
+//@   ensures [C03,C04] steered: result != nil ==> forall a int, b int :: {result.path[a], result.path[b]} 0 <= a && b == a + 1 && b < len(result.path) ==> (ord(t.compare, key, result.path[a].X) < 0 && result.path[b] == result.path[a].left) || (ord(t.compare, key, result.path[a].X) > 0 && result.path[b] == result.path[a].right)
+//@   requires [C03,C04] treeInvRO(t)
+//@   ensures [C03,C04] ord: result != nil ==> ordPath(result.path, t.compare)
+//@   ensures [C03,C04] present: result != nil <==> rank(t.compare, key) in t.elems
 //@
 //@ func (*Tree).Root
-//@   requires [C03] treeInvRO(t)
-//@   ensures [C03] ord: result != nil ==> ordPath(result.path, t.compare)
-//@   ensures [C03] empty: t.root == nil ==> result == nil
-//@   ensures [C03] root: t.root != nil ==> result != nil && fresh(result) && len(result.path) == 1 && result.path[0] == t.root && pathOK(result)
+//@   requires [C03,C04] treeInvRO(t)
+//@   ensures [C03,C04] ord: result != nil ==> ordPath(result.path, t.compare)
+//@   ensures [C03,C04] empty: t.root == nil ==> result == nil
+//@   ensures [C03,C04] root: t.root != nil ==> result != nil && fresh(result) && len(result.path) == 1 && result.path[0] == t.root && pathOK(result)
 //@
 // In-order traversal: the keys of the subtree are yielded in strictly ascending rank order, each the stored
 // representative of its class, all of them when the callback never says stop (the count equals the node count).
